@@ -44,7 +44,8 @@ def bm_monitor(meta, out):
 
 
 EXES = {X + "/vim": (True, None), X + "/ed": (True, None), X + "/cat": (False, None), X + "/elf/vim": (True, X + "/ld.so"),
-        X + "/ld.so": (False, None), X + "/elf/nano": (False, X + "/ld2.so"), X + "/ld2.so": (False, None)}
+        X + "/ld.so": (False, None), X + "/elf/nano": (False, X + "/ld2.so"), X + "/ld2.so": (False, None),
+        X + "/elf2/ed": (True, X + "/ld3.so"), X + "/ld3.so": (False, None)}
 
 
 def gen_attr_case(rng):
@@ -53,11 +54,23 @@ def gen_attr_case(rng):
     s.put(X + "/ed", "#!ed")
     s.put(X + "/elf/nano", wc.elf_image(X + "/ld2.so"))
     s.put(X + "/ld2.so", "loader2")
+    s.put(X + "/elf2/ed", wc.elf_image(X + "/ld3.so"))
+    s.put(X + "/ld3.so", "loader3")
     files = [WATCH + "/a.txt", WATCH + "/inc/i.txt", WATCH + "/.h/c.txt", WATCH + "/.x", WATCH + "/inc/secret", WATCH + "/n"]
     for f in files:
         s.put(f, "x")
     s.start()
     pids = [1, 2, 3, 4, 100000, 4194303]
+    if rng.random() < 0.4:
+        # directed: one process runs an editor, then a second editor binary with another loader, then that loader
+        # (what a dynamically linked editor started from another editor does), then writes
+        p = rng.choice(pids)
+        first, second = rng.sample([X + "/vim", X + "/elf/vim", X + "/elf2/ed"], 2)
+        s.exec(p, first)
+        s.exec(p, second)
+        if EXES[second][1]:
+            s.exec(p, EXES[second][1])
+        s.write(p, rng.choice(files))
     for _ in range(rng.randint(5, 40)):
         if rng.random() < 0.55:
             s.exec(rng.choice(pids), rng.choice(list(EXES)))
@@ -151,7 +164,7 @@ def main(rep):
     rep.cov["input_distribution"] = {"bit_table_sequences": total - (250 if rep.tier == "quick" else 5000), "exec_write_histories": 250 if rep.tier == "quick" else 5000}
     rep.cov["rule"] = ("bit table: random set/unset/get sequences over pids {0,1,2,size-1,size,size+1,2size,2size+1,2^22,random}, initial sizes {0,1,2,8,32768}; "
                        "attribution: 5-40 exec/write events over pids {1,2,3,4,100000,4194303} and executables {editor script, editor ELF with PT_INTERP, its loader, "
-                       "non-editor, non-editor ELF, its loader}, writes to default / included / cluded / hidden / excluded paths; the monitor recomputes editor status from the property text")
+                       "non-editor, non-editor ELF, its loader, a second editor ELF with a different loader, that loader}; 40% start with one process running two editors with different loaders in turn, writes to default / included / cluded / hidden / excluded paths; the monitor recomputes editor status from the property text")
     vlib.conclude_proofs(rep, found)
 
 
